@@ -810,7 +810,11 @@ func exprText(e ast.Expr) string {
 	case *ast.IndexExpr:
 		return exprText(x.X) + "[" + exprText(x.Index) + "]"
 	case *ast.CallExpr:
-		return exprText(x.Fun) + "()"
+		var as []string
+		for _, a := range x.Args {
+			as = append(as, exprText(a))
+		}
+		return exprText(x.Fun) + "(" + strings.Join(as, ",") + ")"
 	case *ast.BasicLit:
 		return x.Value
 	case *ast.BinaryExpr:
